@@ -10,7 +10,9 @@
 (* / last byte removed / one byte appended (the single-byte perturbations of the property).   *)
 EXTENDS DbDigest, Json
 
-CONSTANTS n1, GenMaxNum, MaxHist
+CONSTANTS n1, GenMaxNum, MaxHist,
+          RangeHist     \* three-step range-warmed cache histories (pattern "distinct" only): "none",
+                        \* "ends" (last step reads everything / all but the last trio), "full"
 
 VARIABLES kase
 gvars == <<kase, disk, cache, results, steps>>
@@ -30,8 +32,10 @@ Base(last, p) == [n \in Trios(0, last) |-> PatCid(p, n)]
 
 Perturbed(c) == IF c = 0 THEN {400} ELSE {100 + c, 200 + c, 300 + c, 400 + c}
 
-Step  == [beacon : 0..(GenMaxNum + 1), cache : BOOLEAN]
-One(b, c) == <<[beacon |-> b, cache |-> c]>>
+(* history steps: [op, lo, hi, cache]; for op = "tree" hi is the beacon (lo = 0) *)
+T(b, c)      == [op |-> "tree", lo |-> 0, hi |-> b, cache |-> c]
+R(lo, hi, c) == [op |-> "range", lo |-> lo, hi |-> hi, cache |-> c]
+One(b, c)    == <<T(b, c)>>
 
 (* [d, order, hist, kind] *)
 K(d, o, h, k) == [d |-> d, order |-> o, hist |-> h, kind |-> k]
@@ -41,10 +45,23 @@ CasesOf(last, p) ==
         d0  == Plain(imm)
         Bs  == 0..last
         Bx  == 0..(last + 1)
-        St  == [beacon : Bx, cache : BOOLEAN]
+        St  == {T(b, c) : b \in Bx, c \in BOOLEAN}
+        Rs  == {r \in {R(lo, hi, TRUE) : lo \in Bx, hi \in Bx} : r.lo <= r.hi}
+        Cs  == {T(b, TRUE) : b \in Bx} \cup Rs              \* cached steps of both kinds
     IN
     (* cache histories: cold, warm, partially warm, warm from a longer / shorter run *)
        {K(d0, "asc", h, "hist") : h \in UNION {[1..k -> St] : k \in 1..MaxHist}}
+    (* digests of every range, without cache *)
+    \cup {K(d0, "asc", <<R(r.lo, r.hi, FALSE)>>, "range") : r \in Rs}
+    (* cache warmed by a range computation -- a middle range, then possibly a second disjoint  *)
+    (* range or a shorter / longer beacon: the cached names are not a prefix of the files --    *)
+    (* then two further cached computations of either kind                                      *)
+    \cup (IF RangeHist # "none" /\ last >= 1 /\ p = "distinct"
+          THEN {K(d0, "asc", <<r, s, t>>, "rangehist") :
+                   r \in Rs, s \in Cs,
+                   t \in IF RangeHist = "full" THEN Cs
+                         ELSE {T(last, TRUE), T(last - 1, TRUE), R(0, last, TRUE)}}
+          ELSE {})
     (* other files *)
     \cup {K([d0 EXCEPT !.other = {k}], "asc", One(b, FALSE), "other") : k \in OtherKinds, b \in Bs}
     \cup {K([d0 EXCEPT !.other = OtherKinds], "asc", One(b, c), "other") : b \in Bs, c \in BOOLEAN}
@@ -52,7 +69,7 @@ CasesOf(last, p) ==
     (* a second directory named immutable *)
     \cup {K([d0 EXCEPT !.decoy = x, !.entry = e], "asc", h, "decoy") :
              x \in {"first", "after"}, e \in {"db", "immdir"},
-             h \in UNION {{One(b, FALSE), <<[beacon |-> b, cache |-> TRUE], [beacon |-> b, cache |-> TRUE]>>} : b \in Bs}}
+             h \in UNION {{One(b, FALSE), <<T(b, TRUE), T(b, TRUE)>>} : b \in Bs}}
     \cup {K([d0 EXCEPT !.entry = "immdir"], "asc", One(b, c), "entry") : b \in Bs, c \in BOOLEAN}
     (* creation order *)
     \cup {K(d0, o, One(b, FALSE), "order") : o \in {"desc", "shuffle1", "shuffle2"}, b \in Bs}
@@ -71,10 +88,13 @@ CasesOf(last, p) ==
 RECURSIVE Predict(_, _, _)
 Predict(d, cm, hist) ==
     IF hist = <<>> THEN <<>>
-    ELSE LET o == OutcomeOf(d, cm, Head(hist).beacon, Head(hist).cache) IN
-         <<[ok |-> o.ok,
-            cids |-> IF o.ok THEN [i \in DOMAIN o.root[2] |-> o.root[2][i][2]] ELSE <<>>]>>
-         \o Predict(d, o.newc, Tail(hist))
+    ELSE LET st == Head(hist)
+             o  == StepOutcome(d, cm, st)
+             ds == IF ~o.ok THEN <<>>
+                   ELSE IF st.op = "tree" THEN o.root[2]                       \* Root(digests)
+                   ELSE [i \in DOMAIN o.root[2] |-> o.root[2][i][2]]           \* <<name, digest>> pairs
+         IN  <<[ok |-> o.ok, cids |-> [i \in DOMAIN ds |-> ds[i][2]]]>>
+             \o Predict(d, o.newc, Tail(hist))
 
 ImmSeq(d) == LET s == SortNames(DOMAIN d.imm) IN
              [i \in DOMAIN s |-> [num |-> s[i].num, ext |-> s[i].ext, cid |-> d.imm[s[i]]]]
